@@ -30,10 +30,12 @@ def run(chk):
     proved = tgen_ok and chk.prove(extra_targets=["hhmain", "hhspec"])
     if not proved:
         found = False
-        ok, out = vlib.lake_build(["hhmain", "hhspec"])
-        if tgen_ok and ok:
+        ok, out = vlib.lake_build(["hhspec"])
+        if ok:
             pairs, _ = ordercheck.lean_disagreements("guard_queue_check", "guardB")
             chk.cov["evaluations"] += len(pairs)
+            if not pairs:
+                pairs = ordercheck.grid_pairs()
             if pairs:
                 r = ordercheck.replay_on_impl("guard", pairs, impl)
                 if r:
@@ -75,7 +77,7 @@ def run(chk):
     hh_eval, hh_nontriv, hh_valid = chk.cov["evaluations"], chk.cov["distinct_nontrivial"], chk.cov["traces_validated_against_impl"]
     # ---- process level: waiters served by priority then waiting time; priority changes reposition ----
     import simcheck
-    simcheck.run(chk, ["crowd", "resource", "pool", "lifecycle"], total_quick=1600, total_thorough=40000, extra_targets=["hhmain", "hhspec"])
+    simcheck.run(chk, ["crowd", "prioq", "resource", "pool", "lifecycle"], total_quick=1600, total_thorough=40000, extra_targets=["hhmain", "hhspec"])
     chk.cov["evaluations"] += hh_eval
     chk.cov["distinct_nontrivial"] += hh_nontriv
     chk.cov["traces_validated_against_impl"] += hh_valid
